@@ -306,7 +306,18 @@ class FileResponse(StreamResponse):
         count: int = file_size
         start: int | None = None
 
-        if (ifrange := request.if_range) is None or file_mtime <= ifrange.timestamp():
+        if (if_range_value := request.headers.get(hdrs.IF_RANGE)) is None:
+            range_applies = True
+        elif (ifrange := request.if_range) is not None:
+            range_applies = file_mtime <= ifrange.timestamp()
+        else:
+            # Not a date: an entity-tag, compared strongly with the one this
+            # response carries (a weak or an unparsable validator never matches)
+            # https://www.rfc-editor.org/rfc/rfc9110#section-13.1.5
+            range_applies = (
+                if_range_value.strip(" \t") == f'"{st.st_mtime_ns:x}-{st.st_size:x}"'
+            )
+        if range_applies:
             # If-Range header check:
             # condition = cached date >= last modification date
             # return 206 if True else 200.
